@@ -36,7 +36,7 @@ var lifeAlphabet = func() []lcall {
 	for c := 0; c < 2; c++ {
 		a = append(a, lcall{"act", c, 0}, lcall{"deact", c, 0})
 		for d := 0; d < 2; d++ {
-			a = append(a, lcall{"att", c, d}, lcall{"pp", c, d}, lcall{"det", c, d}, lcall{"rem", c, d})
+			a = append(a, lcall{"att", c, d}, lcall{"pp", c, d}, lcall{"det", c, d}, lcall{"rem", c, d}, lcall{"atts", c, d})
 		}
 	}
 	return a
@@ -97,6 +97,7 @@ func runLifeSeq(ctx context.Context, srv *sim.Server, seqNo int, calls []lcall, 
 				skipped = true
 				break
 			}
+			nch = 0
 			a, e := sl.c.Attach(ctx, keys[call.d], sim.AttachOpts{DisablePresence: true})
 			err = e
 			if e == nil {
@@ -107,6 +108,29 @@ func runLifeSeq(ctx context.Context, srv *sim.Server, seqNo int, calls []lcall, 
 				knownDocID[call.d] = a.DocID
 			} else {
 				a.Close()
+			}
+		case "atts": // attach again with the SAME Document instance (not a fresh one)
+			if sl == nil {
+				skipped = true
+				break
+			}
+			if old := sl.atts[call.d]; old != nil && old.DocID != dummyDocID {
+				nch = len(old.Doc.CreateChangePack().Changes)
+				a, f := sl.c.AttachBeginWith(ctx, old.Doc, old.Stop(), sim.AttachOpts{DisablePresence: true})
+				err = f.Apply()
+				if err == nil {
+					sl.atts[call.d] = a
+					knownDocID[call.d] = a.DocID
+				}
+			} else {
+				a, e := sl.c.Attach(ctx, keys[call.d], sim.AttachOpts{DisablePresence: true})
+				err = e
+				if e == nil {
+					sl.atts[call.d] = a
+					knownDocID[call.d] = a.DocID
+				} else {
+					a.Close()
+				}
 			}
 		case "pp", "det", "rem":
 			if sl == nil {
@@ -169,7 +193,9 @@ func runLifeSeq(ctx context.Context, srv *sim.Server, seqNo int, calls []lcall, 
 		case "deact":
 			cc = coqfmt.App("LDeactivate", coqfmt.N(uint64(call.c)))
 		case "att":
-			cc = coqfmt.App("LAttach", coqfmt.N(uint64(call.c)), coqfmt.N(uint64(call.d)))
+			cc = coqfmt.App("LAttach", coqfmt.N(uint64(call.c)), coqfmt.N(uint64(call.d)), coqfmt.Z(int64(nch)))
+		case "atts":
+			cc = coqfmt.App("LAttachSame", coqfmt.N(uint64(call.c)), coqfmt.N(uint64(call.d)), coqfmt.Z(int64(nch)))
 		case "pp":
 			cc = coqfmt.App("LPushPull", coqfmt.N(uint64(call.c)), coqfmt.N(uint64(call.d)), coqfmt.Z(int64(nch)))
 		case "det":
@@ -247,7 +273,7 @@ func runLife(cfg *config) error {
 				case !att[c][d]:
 					s = append(s, lcall{"att", c, d})
 				default:
-					s = append(s, lcall{[]string{"pp", "pp", "det", "rem", "deact", "att"}[r.Intn(6)], c, d})
+					s = append(s, lcall{[]string{"pp", "pp", "det", "rem", "deact", "att", "atts"}[r.Intn(7)], c, d})
 				}
 			}
 			last := s[len(s)-1]
@@ -258,7 +284,7 @@ func runLife(cfg *config) error {
 			case "deact":
 				active[last.c] = false
 				att[last.c] = [2]bool{}
-			case "att":
+			case "att", "atts":
 				if active[last.c] {
 					att[last.c][last.d] = true
 				}
@@ -290,6 +316,7 @@ func runLife(cfg *config) error {
 	res.Nontrivial = len(seen)
 	res.Rule = fmt.Sprintf("all call sequences up to length %d over {Activate, Deactivate, Attach, PushPull(with one edit), Detach(with one edit), Remove(with one edit)} x 2 client slots x 2 document keys (%d sequences) plus %d seeded sequences of length 3-6, on the real RPC server; distinct = distinct sequences", maxExh, nexh, cfg.n)
 	const shard = 400
+	res.CaseShard = shard
 	for k := 0; k*shard < len(cases); k++ {
 		hi := (k + 1) * shard
 		if hi > len(cases) {
